@@ -144,6 +144,7 @@ func enrollFetch(s *world.Server, flow string, nodeWrap bool, state, params *str
 			return res, "create-token", err
 		}
 		res.Token, res.TokID = tok, id
+		s.Rollover()
 	}
 	nodeTok := res.Token
 	if lateToken {
@@ -167,6 +168,7 @@ func enrollFetch(s *world.Server, flow string, nodeWrap bool, state, params *str
 		if res.Auth, err = registration.AuthorizeNode(s.Ctx, s.Store, res.Req, s.Opts(stateOpt...)...); err != nil {
 			return res, "authorize", err
 		}
+		s.Rollover()
 	case world.FlowToken:
 		if res.Req, err = n.FetchRequest(); err != nil {
 			return res, "create-request", err
@@ -185,6 +187,7 @@ func enrollFetch(s *world.Server, flow string, nodeWrap bool, state, params *str
 		if res.Req, err = n.FetchRequest(); err != nil {
 			return res, "create-request", err
 		}
+		s.Rollover()
 		regInfo := &types.WrappingRegistrationFlowInfo{CertificatePublicKeyPkix: n.K.Pkix, Nonce: n.Nonce, ApplicationSpecificParams: params}
 		ct, err := nodeenrollment.EncryptMessage(s.Ctx, regInfo, via.Creds)
 		if err != nil {
@@ -240,6 +243,12 @@ func enrollCaseBody(c *engine.Ctx, ec enrollCase) {
 	// roots of different age: freshly created defaults, short-lived (1 h), and a pair that has been in
 	// service for days (crafted windows, both valid now) - the leaf windows must follow the roots in all
 	scfg := world.ServerCfg{Backend: ec.Backend, StorageWrap: ec.StorageWrap, RegWrap: ec.RegWrap}
+	if ec.StorageWrap {
+		// kinds of storage wrapper: a plain aead key, a pool whose encrypting key is rolled over between
+		// the steps of the enrollment, envelope encryption (key information and IV stored with each value)
+		scfg.StorageWrapKind = []string{"", world.WrapPooled, world.WrapEnvelope}[(ec.Rep+len(ec.Flow)+int(ec.Salt&3))%3]
+		r.Count("storage_wrapper_kind:"+orDefault(scfg.StorageWrapKind, "aead"), 1)
+	}
 	rootsKind := []string{"fresh", "short-lived", "in-service-for-days"}[(ec.Rep+len(ec.Backend)+len(ec.Flow)+len(ec.State))%3]
 	switch rootsKind {
 	case "short-lived":
@@ -796,6 +805,7 @@ func enrollCaseBody(c *engine.Ctx, ec enrollCase) {
 	}
 
 	// ---- a real handshake -------------------------------------------------------
+	s.Rollover()
 	lw, err := world.NewLW(s, world.LWCfg{})
 	if err != nil {
 		r.Broken("enroll: cannot start listener: " + err.Error())
@@ -958,6 +968,9 @@ func runEnroll(c *engine.Ctx) engine.Result {
 		r.Require("token_state_vs_fetch_option:"+k, int64(perFlow[world.FlowToken])/3/6)
 	}
 	r.Require("client_configs_with_options_cover_2_valid_chains", n/4)
+	for _, k := range []string{"aead", world.WrapPooled, world.WrapEnvelope} {
+		r.Require("storage_wrapper_kind:"+k, n/12)
+	}
 	r.Require("responses_opened", n)
 	r.Require("certificates_parsed", 2*n)
 	r.Require("wrong_keys_tried", 7*n)
